@@ -1,17 +1,18 @@
 # shared by check / setup.sh: offline Go environment and overlay build
 export GOFLAGS=-mod=mod GOPROXY=off GOSUMDB=off GOTOOLCHAIN=local CGO_ENABLED=1
 export GOCACHE=${GOCACHE:-/root/.cache/go-build}
-VERIF=/verif
+VERIF=${VERIF_HOME:-$(cd "$(dirname "${BASH_SOURCE[0]}")" && pwd)}
+export VERIF_HOME=$VERIF
 REPO=${VERIF_REPO:-/repo}
 
 # mkoverlay <out.json> [extra "virtual=real" pairs...]
 mkoverlay() {
   local out=$1; shift
-  python3 - "$out" "$REPO" "$@" <<'PY'
+  python3 - "$out" "$REPO" "$VERIF" "$@" <<'PY'
 import json, os, sys
-out, repo = sys.argv[1], sys.argv[2]
+out, repo, verif = sys.argv[1], sys.argv[2], sys.argv[3]
 rep = {}
-h = "/verif/harness"
+h = verif + "/harness"
 for pkg in sorted(os.listdir(h)):
     d = os.path.join(h, pkg)
     if pkg == "hooks" or not os.path.isdir(d):
@@ -32,7 +33,7 @@ for f, dst in hooks.items():
     p = os.path.join(h, "hooks", f)
     if os.path.exists(p):
         rep[os.path.join(repo, dst)] = p
-for pair in sys.argv[3:]:
+for pair in sys.argv[4:]:
     v, r = pair.split("=", 1)
     rep[v] = r
 json.dump({"Replace": rep}, open(out, "w"), indent=1)
